@@ -111,6 +111,7 @@ def _depends_on_parameter(func, test):
 class AssertClassifier:
     def __init__(self):
         self.untriaged = []
+        self.carried_over = []
         self.seen = {}
 
     def __call__(self, func, node):
@@ -129,6 +130,15 @@ class AssertClassifier:
             self.seen[key] = "table"
             return "ignore"
         entry = assert_table.TRIAGE.get(key)
+        if entry is None:
+            # the function was renamed, extracted or moved within its module: the triage of the identical condition is
+            # carried over when exactly one assert of that module has it
+            module_prefix = qualname.split(".")[0] + "."
+            same = [(k, v) for k, v in assert_table.TRIAGE.items() if k[1] == condition and k[0].startswith(module_prefix)]
+            classes = {v[0] for _, v in same}
+            if same and len(classes) == 1:
+                entry = same[0][1]
+                self.carried_over.append((key, same[0][0][0]))
         if entry is not None:
             self.seen[key] = entry[0]
             return "input" if entry[0] == assert_table.INPUT else "ignore"
@@ -200,6 +210,8 @@ def rule_escapes(ctx):
                ENTRY_POINTS["cutplace." + record["entries"][0]][1], _chain_text(item)),
             {"entries": record["entries"], "chain": _chain_text(item)},
         )
+    for key, source in classifier.carried_over:
+        ctx.res.note("assert triage carried over within the module: %s | %s (triaged for %s)" % (key[0], key[1], source))
     for key in classifier.untriaged:
         ctx.res.note("untriaged assert on a parameter treated as input-reachable: %s | %s" % key)
     ctx.res.analysed["asserts_classified"] = len(classifier.seen)
